@@ -41,6 +41,8 @@ static _Bool verif_thrown = 0;
 #define VERIF_THROW(type) do { verif_thrown = 1; } while (0)
 #define VERIF_OBL(c, name) __CPROVER_assert(verif_thrown || (c), name)
 #define VERIF_ASSERT(c, name) __CPROVER_assert(verif_thrown || (c), name)
+/* a ghost lemma: proved (obligation) where it stands, then available to the solver */
+#define VERIF_LEMMA(c, name) do { __CPROVER_assert(verif_thrown || (c), name); __CPROVER_assume(verif_thrown || (c)); } while (0)
 #define VERIF_HAVOC(x) do { __typeof__(x) verif_h; (x) = verif_h; } while (0)
 
 /* ---- literals, casts ------------------------------------------------------------------------ */
